@@ -164,5 +164,157 @@ example : Cyl.omega (1 : ℚ) ⟨1, 0, 0⟩ ⟨0, 3 / 5, 4 / 5⟩ = 3 / 5 ∧ V3
     V3.dot (⟨0, 3 / 5, 4 / 5⟩ : V3 ℚ) ⟨0, 3 / 5, 4 / 5⟩ = 1 := by
   norm_num [Cyl.omega, V3.cross, V3.dot]
 
+
+/-! ## the loop as coded (`R = dR * R`) equals the closed form; unit speed; start frame from `SqrtSpec` -/
+section loop
+variable {K : Type} [Field K]
+
+/-- the iterated trig pair stays on the unit circle -/
+theorem trigIter_unit (cd sd : K) (h : cd * cd + sd * sd = 1) (k : Nat) :
+    (trigIter cd sd k).1 * (trigIter cd sd k).1 + (trigIter cd sd k).2 * (trigIter cd sd k).2 = 1 := by
+  induction k with
+  | zero => simp [trigIter]
+  | succ k ih =>
+    simp only [trigIter]
+    generalize (trigIter cd sd k).1 = C at ih ⊢
+    generalize (trigIter cd sd k).2 = S at ih ⊢
+    linear_combination (cd * cd + sd * sd) * ih + h
+
+/-- `Rotation(Δφ, n × t)` acts on the plane spanned by the orthonormal pair `(n, t)` as the plane rotation by `Δφ` -/
+theorem axisAngle_plane (n t : V3 K) (cd sd al be : K)
+    (hn : V3.dot n n = 1) (ht : V3.dot t t = 1) (hnt : V3.dot n t = 0) :
+    M3.mulVec (axisAngle (V3.neg (V3.cross t n)) cd sd) (V3.add (V3.smul al n) (V3.smul be t))
+      = V3.add (V3.smul (al * cd - be * sd) n) (V3.smul (al * sd + be * cd) t) := by
+  simp only [axisAngle, M3.mulVec, V3.dot, V3.neg, V3.cross, V3.add, V3.smul] at *
+  apply V3.ext'
+  · simp only
+    linear_combination (al * sd * t.x) * hn + (-(be * sd * n.x)) * ht + (be * sd * t.x - al * sd * n.x) * hnt
+  · simp only
+    linear_combination (al * sd * t.y) * hn + (-(be * sd * n.y)) * ht + (be * sd * t.y - al * sd * n.y) * hnt
+  · simp only
+    linear_combination (al * sd * t.z) * hn + (-(be * sd * n.z)) * ht + (be * sd * t.z - al * sd * n.z) * hnt
+
+omit [Field K] in
+theorem col0_frameOfCols (x y z : V3 K) : M3.col0 (frameOfCols x y z) = x := rfl
+omit [Field K] in
+theorem col1_frameOfCols (x y z : V3 K) : M3.col1 (frameOfCols x y z) = y := rfl
+
+/-- **the sphere loop = the closed form**: after `k` passes through `R = dR * R` the normal and tangent columns of the frame
+are `C_k n + S_k t` and `−S_k n + C_k t`, `(C_k, S_k)` the trig pair of `k·Δφ` (addition law) -/
+theorem Sph.frameIter_cols (n t b : V3 K) (cd sd : K)
+    (hn : V3.dot n n = 1) (ht : V3.dot t t = 1) (hnt : V3.dot n t = 0) (k : Nat) :
+    M3.col1 (frameIter (axisAngle (V3.neg (V3.cross t n)) cd sd) k (frameOfCols t n b))
+        = V3.add (V3.smul (trigIter cd sd k).1 n) (V3.smul (trigIter cd sd k).2 t) ∧
+    M3.col0 (frameIter (axisAngle (V3.neg (V3.cross t n)) cd sd) k (frameOfCols t n b))
+        = V3.add (V3.smul (-(trigIter cd sd k).2) n) (V3.smul (trigIter cd sd k).1 t) := by
+  induction k with
+  | zero =>
+    simp only [frameIter, trigIter, col0_frameOfCols, col1_frameOfCols, V3.add, V3.smul]
+    constructor <;> (apply V3.ext' <;> (simp only; ring))
+  | succ k ih =>
+    obtain ⟨i1, i0⟩ := ih
+    simp only [frameIter, trigIter, col0_mul, col1_mul, i1, i0, axisAngle_plane n t cd sd _ _ hn ht hnt]
+    constructor <;> (simp only [V3.add, V3.smul]; apply V3.ext' <;> (simp only; ring))
+
+/-- the knot written by the loop at pass `k` is the closed-form knot at the trig pair of `k·Δφ` -/
+theorem Sph.loop_eq_closed_form (r : K) (n t : V3 K) (cd sd : K)
+    (hn : V3.dot n n = 1) (ht : V3.dot t t = 1) (hnt : V3.dot n t = 0) (k : Nat) (sArc : K) :
+    Sph.knotLoop r n t cd sd k sArc = Sph.knot r n t sArc (trigIter cd sd k).1 (trigIter cd sd k).2 := by
+  obtain ⟨i1, i0⟩ := Sph.frameIter_cols n t (V3.cross t n) cd sd hn ht hnt k
+  simp only [Sph.knotLoop, Sph.knotOfFrame, i1, i0, Sph.knot]
+
+/-- hence every knot of the loop lies on the sphere and carries a unit tangent orthogonal to the normal -/
+theorem Sph.loop_on_surface (r : K) (n t : V3 K) (cd sd : K)
+    (hn : V3.dot n n = 1) (ht : V3.dot t t = 1) (hnt : V3.dot n t = 0) (hcs : cd * cd + sd * sd = 1) (k : Nat) (sArc : K) :
+    Geom.Sph.value r (Sph.knotLoop r n t cd sd k sArc).point = 0 ∧
+    V3.normSq (Sph.knotLoop r n t cd sd k sArc).tangent = 1 ∧
+    V3.dot (Sph.knotLoop r n t cd sd k sArc).tangent (Sph.knotLoop r n t cd sd k sArc).point = 0 := by
+  rw [Sph.loop_eq_closed_form r n t cd sd hn ht hnt]
+  have hk := trigIter_unit cd sd hcs k
+  exact ⟨Sph.on_surface r n t sArc _ _ hn ht hnt hk, Sph.unit_tangent r n t sArc _ _ hn ht hnt hk,
+    Sph.tangent_orthogonal_normal r n t sArc _ _ hn ht hnt⟩
+
+/-- `Rotation(Δφ, ZAxis)` is the plane rotation about z -/
+theorem axisAngle_z (cd sd : K) (v : V3 K) : M3.mulVec (axisAngle (⟨0, 0, 1⟩ : V3 K) cd sd) v = Cyl.rotZ cd sd v := by
+  simp only [axisAngle, M3.mulVec, V3.dot, Cyl.rotZ]
+  apply V3.ext' <;> (simp only; try ring)
+
+theorem Cyl.rotZ_rotZ (c1 s1 c2 s2 : K) (v : V3 K) :
+    Cyl.rotZ c2 s2 (Cyl.rotZ c1 s1 v) = Cyl.rotZ (c1 * c2 - s1 * s2) (s1 * c2 + c1 * s2) v := by
+  simp only [Cyl.rotZ]
+  apply V3.ext' <;> (simp only; try ring)
+
+/-- **the cylinder loop = the closed form** -/
+theorem Cyl.frameIter_cols (n0 t0 b : V3 K) (cd sd : K) (k : Nat) :
+    M3.col1 (frameIter (axisAngle (⟨0, 0, 1⟩ : V3 K) cd sd) k (frameOfCols t0 n0 b))
+        = Cyl.rotZ (trigIter cd sd k).1 (trigIter cd sd k).2 n0 ∧
+    M3.col0 (frameIter (axisAngle (⟨0, 0, 1⟩ : V3 K) cd sd) k (frameOfCols t0 n0 b))
+        = Cyl.rotZ (trigIter cd sd k).1 (trigIter cd sd k).2 t0 := by
+  induction k with
+  | zero =>
+    simp only [frameIter, trigIter, col0_frameOfCols, col1_frameOfCols, Cyl.rotZ]
+    constructor <;> (apply V3.ext' <;> (simp only; try ring))
+  | succ k ih =>
+    obtain ⟨i1, i0⟩ := ih
+    constructor <;> simp only [frameIter, trigIter, col0_mul, col1_mul, i1, i0, axisAngle_z, Cyl.rotZ_rotZ]
+
+theorem Cyl.loop_eq_closed_form (R : K) (n0 t0 : V3 K) (h0 cd sd : K) (k : Nat) (sArc : K) :
+    Cyl.knotLoop R n0 t0 h0 cd sd k sArc = Cyl.knot R n0 t0 h0 sArc (trigIter cd sd k).1 (trigIter cd sd k).2 := by
+  obtain ⟨i1, i0⟩ := Cyl.frameIter_cols n0 t0 (V3.cross t0 n0) cd sd k
+  simp only [Cyl.knotLoop, i1, i0, Cyl.knot]
+
+theorem Cyl.loop_on_surface (R : K) (n0 t0 : V3 K) (h0 cd sd : K)
+    (hz : n0.z = 0) (hn : V3.dot n0 n0 = 1) (ht : V3.dot t0 t0 = 1) (hcs : cd * cd + sd * sd = 1) (k : Nat) (sArc : K) :
+    Geom.Cyl.value R (Cyl.knotLoop R n0 t0 h0 cd sd k sArc).point = 0 ∧
+    V3.normSq (Cyl.knotLoop R n0 t0 h0 cd sd k sArc).tangent = 1 := by
+  rw [Cyl.loop_eq_closed_form]
+  have hk := trigIter_unit cd sd hcs k
+  exact ⟨Cyl.on_surface R n0 t0 h0 sArc _ _ hz hn hk, Cyl.unit_tangent R n0 t0 h0 sArc _ _ ht hk⟩
+
+/-- the closed-form great circle is traversed at unit speed: `|d point/ds| = 1` (what "length = r·angle" means for the knots) -/
+theorem Sph.unit_speed (r : K) (n t : V3 K) (sArc c s : K) (hr : r ≠ 0)
+    (hn : V3.dot n n = 1) (ht : V3.dot t t = 1) (hnt : V3.dot n t = 0) (hcs : c * c + s * s = 1) :
+    V3.normSq (epsV (Sph.knot (Jet1.const r) (constV n) (constV t) (arcJ sArc) (cJ c s (1 / r)) (sJ c s (1 / r))).point) = 1 := by
+  rw [Sph.length_closed_form r n t sArc c s hr]; exact Sph.unit_tangent r n t sArc c s hn ht hnt hcs
+
+theorem Cyl.unit_speed (R : K) (n0 t0 : V3 K) (h0 sArc c s : K) (hR : R ≠ 0) (hz : n0.z = 0)
+    (hn : V3.dot n0 n0 = 1) (ht : V3.dot t0 t0 = 1) (hnt : V3.dot n0 t0 = 0) (hcs : c * c + s * s = 1) :
+    V3.normSq (epsV (Cyl.knot (Jet1.const R) (constV n0) (constV t0) (Jet1.const h0) (arcJ sArc)
+        (cJ c s (Cyl.omega R n0 t0)) (sJ c s (Cyl.omega R n0 t0))).point) = 1 := by
+  rw [Cyl.length_closed_form R n0 t0 h0 sArc c s hR hz hn hnt]; exact Cyl.unit_tangent R n0 t0 h0 sArc c s ht hcs
+end loop
+
+section ordered
+variable {K : Type} [Field K] [LinearOrder K] [IsStrictOrderedRing K]
+
+/-- `start_tangent_orthonormal` from `SqrtSpec`: for a unit normal and an approximate tangent not parallel to it the
+projected start tangent is a unit vector orthogonal to the normal -/
+theorem start_tangent_orthonormal_spec (sqrt : K → K) (hsq : SqrtSpec sqrt) (n ta : V3 K) (hn : V3.dot n n = 1)
+    (hgen : 0 < V3.normSq (V3.cross n ta)) :
+    V3.dot (startTangent sqrt n ta) n = 0 ∧ V3.normSq (startTangent sqrt n ta) = 1 := by
+  have hm2 := hsq.sq _ hgen.le
+  have hm0 : sqrt (V3.normSq (V3.cross n ta)) ≠ 0 := by
+    intro h; rw [h, mul_zero] at hm2; exact absurd hm2 (ne_of_lt hgen)
+  have hu := unit_normSq sqrt (V3.cross n ta) hm2 hm0
+  have hun : V3.dot (V3.unit sqrt (V3.cross n ta)) n = 0 := by
+    simp only [V3.unit, V3.sdiv, V3.dot, V3.cross]
+    field_simp
+    ring
+  have hlag : V3.normSq (V3.cross (V3.unit sqrt (V3.cross n ta)) n) = 1 := by
+    generalize V3.unit sqrt (V3.cross n ta) = u at hu hun
+    simp only [V3.normSq, V3.dot, V3.cross] at *
+    linear_combination (n.x * n.x + n.y * n.y + n.z * n.z) * hu + hn - (u.x * n.x + u.y * n.y + u.z * n.z) * hun
+  refine start_tangent_orthonormal sqrt n ta ?_ ?_
+  · rw [hlag]; exact hsq.sq 1 zero_le_one
+  · rw [hlag]; intro h; have := hsq.sq 1 zero_le_one; rw [h, mul_zero] at this; exact zero_ne_one this
+end ordered
+
+/-- the loop is non-vacuous: two passes with the 3-4-5 pair give the pair of the double angle, and the loop's knot 1 on the
+unit sphere is the closed-form knot -/
+example : trigIter ((3 : ℚ) / 5) (4 / 5) 2 = (-7 / 25, 24 / 25) ∧
+    (Sph.knotLoop (1 : ℚ) ⟨1, 0, 0⟩ ⟨0, 1, 0⟩ (3 / 5) (4 / 5) 1 0).point = ⟨3 / 5, 4 / 5, 0⟩ := by
+  norm_num [trigIter, Sph.knotLoop, Sph.knotOfFrame, frameIter, axisAngle, frameOfCols, M3.mul, M3.col0, M3.col1, M3.col2,
+    V3.cross, V3.neg, V3.smul, V3.dot]
+
 end Geo
 end Geom
